@@ -1,0 +1,24 @@
+//go:build verif
+
+// Contracts for govc (comment-only file; see /verif/DESIGN.md section 3).
+package sign
+
+// Textbook Schnorr verification (C01, C16):  z*G == R + c*Y  with the challenge c drawn from the digest of the
+// transcript (R, Y, messageHash(m)) absorbed in this order into a fresh hash.
+//@ pred schnorr_chal(R curve.Point, Y curve.Point, m []byte) := sc_from(hdig(hw(hw(hw(h_init(), habs(iface(R))), habs(iface(Y))), habs(iface(messageHash(m))))))
+//@ pred schnorr_valid(R curve.Point, z curve.Scalar, Y curve.Point, m []byte) := p_add(act(schnorr_chal(R, Y, m), ptval(Y)), ptval(R)) == act(scval(z), gen())
+// messageHash.WriteTo fails only for a nil slice (see its body).
+//@ axiom forall(d, any, (typeis(d, messageHash) && d.(messageHash) != nil) ==> wnofail(d))
+//@ func (Signature).Verify
+//@   nopanic[C05]
+//@   requires public != nil && sig.R != nil && sig.z != nil && m != nil && typeis(public, *curve.Secp256k1Point) && typeis(sig.R, *curve.Secp256k1Point)
+//@   modifies nothing
+//@   allocates
+//@   ensures[C01,C16] result == schnorr_valid(sig.R, sig.z, public, m)
+
+// Output gate (C01): the session's result is produced only for a signature its verifier accepts for exactly this
+// session's group key and message.
+//@ func (*round3).Finalize
+//@   assert_at[C01] ResultRound "return r.ResultRound(sig)": typeis(arg1, taproot.Signature) ==> (r.taproot && bip340_valid(xbytes(ptval(r.Y)), bval(arg1.(taproot.Signature)), bval(r.M)))
+//@   assert_at[C01] ResultRound "return r.ResultRound(sig)": typeis(arg1, Signature) ==> (!r.taproot && schnorr_valid(arg1.(Signature).R, arg1.(Signature).z, r.Y, r.M))
+//@   assert_at[C01] ResultRound "return r.ResultRound(sig)": typeis(arg1, taproot.Signature) || typeis(arg1, Signature)
